@@ -36,12 +36,26 @@ static int same_dag(dr_pi_dag *A, dr_pi_dag *B, char *why){
     dr_pi_dag_node *a = &A->T[i], *b = &B->T[i];
     if (a->info.kind != b->info.kind || a->info.t_1 != b->info.t_1 || a->info.t_inf != b->info.t_inf || a->info.start.t != b->info.start.t
         || a->info.end.t != b->info.end.t || a->info.worker != b->info.worker || a->edges_begin != b->edges_begin || a->edges_end != b->edges_end
+        || a->info.start.pos.file_idx != b->info.start.pos.file_idx || a->info.start.pos.line != b->info.start.pos.line
+        || a->info.end.pos.file_idx != b->info.end.pos.file_idx || a->info.end.pos.line != b->info.end.pos.line
         || a->subgraphs_begin_offset != b->subgraphs_begin_offset || a->subgraphs_end_offset != b->subgraphs_end_offset
         || memcmp(a->info.logical_node_counts, b->info.logical_node_counts, sizeof a->info.logical_node_counts)
         || memcmp(a->info.logical_edge_counts, b->info.logical_edge_counts, sizeof a->info.logical_edge_counts)){ sprintf(why, "node %ld differs", i); return 0; }
   }
   for (i = 0; i < A->m; i++) if (A->E[i].kind != B->E[i].kind || A->E[i].u != B->E[i].u || A->E[i].v != B->E[i].v){ sprintf(why, "edge %ld differs", i); return 0; }
   if (A->S->n != B->S->n){ sprintf(why, "string table differs"); return 0; }
+  return 1;
+}
+/* every source position of a dumped / converted DAG must name, through the string table, the file it was recorded with */
+static const char *FN[8] = { "sim_a.c", "sim_b.c", "sim_c.c", "sim_d.c", "sim_e.c", "sim_f.c", "sim_g.c", "sim_h.c" };
+static int strings_ok(dr_pi_dag *G, char *why){
+  long i; int e;
+  for (i = 0; i < G->n; i++) for (e = 0; e < 2; e++){
+    code_pos *p = e ? &G->T[i].info.end.pos : &G->T[i].info.start.pos;
+    if (p->file_idx < 0 || p->file_idx >= G->S->n){ sprintf(why, "BAD:node_%ld_file_index_%ld_outside_table_of_%ld", i, p->file_idx, G->S->n); return 0; }
+    if (p->line < 0 || p->line / 100 > 7 || strcmp(G->S->C + G->S->I[p->file_idx], FN[p->line / 100])){
+      sprintf(why, "BAD:node_%ld_line_%ld_names_%.20s", i, p->line, G->S->C + G->S->I[p->file_idx]); return 0; }
+  }
   return 1;
 }
 /* edge totals the way the stat generator computes them: logical counts of contracted nodes + materialised edges */
@@ -121,18 +135,22 @@ int main(int argc, char **argv){
       if (!fgets(line, sizeof line, fp)) return 2;
       sscanf(line, "%31s %d %d %ld %ld", op, &t, &w, &c, &x);
       vclock = (unsigned long long)c;
-      if (!strcmp(op, "start")) dr_start__(&opts, "sim", 1, w, nw);
-      else if (!strcmp(op, "create")) { dr_dag_node *cn = 0; task[t] = dr_enter_create_task__(&cn, "sim", 2, w); cnode[x] = cn; }
-      else if (!strcmp(op, "start_task")) dr_start_task__(cnode[t], "sim", 3, w);
-      else if (!strcmp(op, "ret_create")) dr_return_from_create_task__(task[t], "sim", 4, w);
-      else if (!strcmp(op, "wait")) task[t] = dr_enter_wait_tasks__("sim", 5, w);
-      else if (!strcmp(op, "ret_wait")) dr_return_from_wait_tasks__(task[t], "sim", 6, w);
-      else if (!strcmp(op, "other")) task[t] = dr_enter_other__("sim", 7, w);
-      else if (!strcmp(op, "ret_other")) dr_return_from_other__(task[t], "sim", 8, w);
-      else if (!strcmp(op, "end")) { if (t == 1) dr_stop__("sim", 9, w); else dr_end_task__("sim", 9, w); }
+      /* source positions: K distinct file names in this execution (K = 1..7, by execution index); the line number
+         encodes the file (100 * file + operation), so that a position read back can be checked on its own */
+#define POS(o_) FN[FI(t, o_)], (100 * FI(t, o_) + (o_))
+#define FI(t_, o_) ((int)(((t_) * 3 + (o_)) % (1 + idx % 7)))
+      if (!strcmp(op, "start")) dr_start__(&opts, POS(1), w, nw);
+      else if (!strcmp(op, "create")) { dr_dag_node *cn = 0; task[t] = dr_enter_create_task__(&cn, POS(2), w); cnode[x] = cn; }
+      else if (!strcmp(op, "start_task")) dr_start_task__(cnode[t], POS(3), w);
+      else if (!strcmp(op, "ret_create")) dr_return_from_create_task__(task[t], POS(4), w);
+      else if (!strcmp(op, "wait")) task[t] = dr_enter_wait_tasks__(POS(5), w);
+      else if (!strcmp(op, "ret_wait")) dr_return_from_wait_tasks__(task[t], POS(6), w);
+      else if (!strcmp(op, "other")) task[t] = dr_enter_other__(POS(7), w);
+      else if (!strcmp(op, "ret_other")) dr_return_from_other__(task[t], POS(8), w);
+      else if (!strcmp(op, "end")) { if (t == 1) dr_stop__(POS(9), w); else dr_end_task__(POS(9), w); }
     }
     /* dump, read the stat file back, compare dump / re-read */
-    { char sbuf[65536]; FILE *sf; size_t len; dr_pi_dag G[1]; dr_pi_dag *R; char why[128] = "ok", chr[128] = "ok", shr[160] = "ok";
+    { char sbuf[65536]; FILE *sf; size_t len; dr_pi_dag G[1]; dr_pi_dag *R; char why[128] = "ok", chr[128] = "ok", shr[160] = "ok", str[160] = "ok";
       dr_dump_();
       snprintf(path, sizeof path, "%s.stat", prefix); sf = fopen(path, "r"); len = sf ? fread(sbuf, 1, sizeof sbuf - 1, sf) : 0; sbuf[len] = 0; if (sf) fclose(sf);
       dr_make_pi_dag(G, GS.root, GS.start_clock);
@@ -142,6 +160,7 @@ int main(int argc, char **argv){
       if (R){
         dr_pi_dag S_[1]; long ea[dr_dag_edge_kind_max], eb[dr_dag_edge_kind_max]; int k_;
         chrono_ok(R, chr);
+        strings_ok(R, str);
         /* conversion with shrinking (what dag2any --shrink does) must preserve the totals */
         dr_copy_pi_dag(S_, R);
         edge_totals(R, ea); edge_totals(S_, eb);
@@ -149,13 +168,14 @@ int main(int argc, char **argv){
             || memcmp(S_->T[0].info.logical_node_counts, R->T[0].info.logical_node_counts, sizeof R->T[0].info.logical_node_counts)) strcpy(shr, "BAD:root_totals_changed");
         for (k_ = 0; k_ < dr_dag_edge_kind_max; k_++) if (ea[k_] != eb[k_]) sprintf(shr, "BAD:edges_of_kind_%d_%ld_became_%ld", k_, ea[k_], eb[k_]);
         if (!strcmp(shr, "ok")){ char c2[128] = "ok"; if (!chrono_ok(S_, c2)) snprintf(shr, sizeof shr, "BAD:shrunk_%s", c2); }
+        if (!strcmp(str, "ok")){ char c2[128] = "ok"; if (!strings_ok(S_, c2)) snprintf(str, sizeof str, "BAD:shrunk_%s", c2 + 4); }
         if (jf) export_json(S_, jf, 2 * idx + 1);
       }
-      printf("%ld work=%ld tinf=%ld create=%ld wait=%ld end=%ld nodes=%ld matnodes=%ld e_end=%ld e_create=%ld e_create_cont=%ld e_wait_cont=%ld e_other_cont=%ld roundtrip=%s chrono=%s shrink=%s\n", idx,
+      printf("%ld work=%ld tinf=%ld create=%ld wait=%ld end=%ld nodes=%ld matnodes=%ld e_end=%ld e_create=%ld e_create_cont=%ld e_wait_cont=%ld e_other_cont=%ld roundtrip=%s chrono=%s shrink=%s strings=%s\n", idx,
              stat_val(sbuf, "work (T1)"), stat_val(sbuf, "critical_path (T_inf)"), stat_val(sbuf, "create_task "), stat_val(sbuf, "wait_tasks "), stat_val(sbuf, "end_task "),
              stat_val(sbuf, "dag nodes"), stat_val(sbuf, "materialized nodes"),
              edge_sum(sbuf, "end-parent edges:", nw), edge_sum(sbuf, "create-child edges:", nw), edge_sum(sbuf, "create-cont edges:", nw),
-             edge_sum(sbuf, "wait-cont edges:", nw), edge_sum(sbuf, "other-cont edges:", nw), why, chr, shr);
+             edge_sum(sbuf, "wait-cont edges:", nw), edge_sum(sbuf, "other-cont edges:", nw), why, chr, shr, str);
       fflush(stdout);
       dr_destroy_pi_dag(G);
     }
